@@ -177,29 +177,6 @@ Proof. unfold w64, u64. change 18446744073709551615 with (Z.ones 64). rewrite Z.
 Lemma w64_id x : in_u64 x -> w64 x = x.
 Proof. intros. rewrite w64_u64. apply u64_id. assumption. Qed.
 
-Definition thr (b : Z) : Z := b * RM_LOAD_N / RM_LOAD_D.
-Definition MIN_E : Z := Z.log2 RM_MIN_BUCKETS.
-Definition GROW_LIMIT : Z := thr (2 ^ 56).
-
-(* Everything the proofs use about the generated constants; re-established by computation whenever
-   Generated/RefmapConsts.v changes (fails e.g. for a load factor >= 1 or a minimum size that is not a power of two). *)
-Lemma consts_ok :
-  RM_MIN_BUCKETS = 2 ^ MIN_E /\ 0 <= MIN_E <= 52 /\ 0 < RM_LOAD_N < RM_LOAD_D /\ RM_LOAD_D = 256 /\
-  RM_MAX_BUCKETS = 2 ^ 52.
-Proof. vm_compute. intuition congruence. Qed.
-
-Lemma min_e_range : 0 <= MIN_E <= 52.  Proof. apply consts_ok. Qed.
-Lemma load_n_range : 0 < RM_LOAD_N < 256.
-Proof. destruct consts_ok as (_ & _ & H & D & _). rewrite D in H. exact H. Qed.
-Lemma load_d : RM_LOAD_D = 256. Proof. apply consts_ok. Qed.
-
-Lemma thr_lt b : 0 < b -> 0 <= thr b < b.
-Proof. unfold thr. pose proof load_n_range. rewrite load_d. intros. nia. Qed.
-Lemma thr_0 : thr 0 = 0.
-Proof. unfold thr. rewrite load_d. reflexivity. Qed.
-Lemma thr_mono a b : 0 <= a <= b -> thr a <= thr b.
-Proof. unfold thr. pose proof load_n_range. rewrite load_d. intros. apply Z.div_le_mono; nia. Qed.
-
 Lemma pow2_pos e : 0 <= e -> 0 < 2 ^ e.
 Proof. intros. apply Z.pow_pos_nonneg; lia. Qed.
 Lemma pow2_mono a b : 0 <= a <= b -> 2 ^ a <= 2 ^ b.
@@ -207,39 +184,22 @@ Proof. intros. apply Z.pow_le_mono_r; lia. Qed.
 Lemma pow2_succ e : 0 <= e -> 2 ^ (e + 1) = 2 ^ e * 2.
 Proof. intros. rewrite Z.pow_add_r by lia. reflexivity. Qed.
 
-Lemma above_spec c b : 0 <= b <= 2 ^ 56 -> above c b = (thr b <=? c).
+(* table sizes: any power of two up to 2^60 (the map theorems); the reference policy stays below 2^52 *)
+Definition bucket_ok (B : Z) : Prop := exists e, 0 <= e <= 60 /\ B = 2 ^ e.
+
+Lemma bucket_ok_range B : bucket_ok B -> 0 < B <= 2 ^ 60.
 Proof.
-  intros Hb. unfold above, thr. pose proof load_n_range.
-  rewrite w64_id; [reflexivity|]. unfold in_u64. change (2 ^ 56) with 72057594037927936 in Hb. nia.
+  intros [e [He ->]]. split; [apply pow2_pos; lia|apply pow2_mono; lia].
 Qed.
 
-Definition bucket_ok (B : Z) : Prop := exists e, MIN_E <= e <= 52 /\ B = 2 ^ e.
-
-Lemma bucket_ok_range B : bucket_ok B -> 0 < B <= 2 ^ 52.
+Lemma is_pow2_ok nb : is_pow2 nb = true -> bucket_ok nb.
 Proof.
-  intros [e [He ->]]. pose proof min_e_range. split; [apply pow2_pos; lia|apply pow2_mono; lia].
+  unfold is_pow2. intros H. exists (Z.log2 nb). pose proof (Z.log2_nonneg nb). split; lia.
 Qed.
 
-Lemma bucket_ok_min : bucket_ok RM_MIN_BUCKETS.
-Proof. exists MIN_E. pose proof min_e_range. split; [lia|apply consts_ok]. Qed.
-
-Lemma grow_spec fuel : forall e c,
-  0 <= c < GROW_LIMIT -> MIN_E <= e <= 56 -> (Z.to_nat (56 - e) < fuel)%nat ->
-  exists e', e <= e' <= 56 /\ grow fuel c (2 ^ e) = Some (2 ^ e') /\ c < thr (2 ^ e').
+Lemma is_pow2_pow e : 0 <= e <= 60 -> is_pow2 (2 ^ e) = true.
 Proof.
-  pose proof min_e_range as Hm.
-  induction fuel as [|f IH]; intros e c Hc He Hf; [lia|].
-  cbn [grow]. rewrite above_spec by (split; [apply Z.lt_le_incl, pow2_pos; lia|apply pow2_mono; lia]).
-  destruct (thr (2 ^ e) <=? c) eqn:E.
-  - assert (e < 56).
-    { destruct (Z.eq_dec e 56) as [->|]; [|lia]. unfold GROW_LIMIT in Hc. lia. }
-    rewrite w64_id.
-    2:{ unfold in_u64. rewrite <- pow2_succ by lia. split; [apply Z.lt_le_incl, pow2_pos; lia|].
-        apply Z.le_lt_trans with (2 ^ 56); [apply pow2_mono; lia|reflexivity]. }
-    rewrite <- pow2_succ by lia.
-    destruct (IH (e + 1) c Hc) as [e' [He' [G L]]]; [lia|lia|].
-    exists e'. split; [lia|]. split; assumption.
-  - exists e. split; [lia|]. split; [reflexivity|lia].
+  intros He. unfold is_pow2. rewrite Z.log2_pow2 by lia. pose proof (pow2_pos e). lia.
 Qed.
 
 Lemma probe_mod k i e : 0 <= e <= 64 -> probe k i (2 ^ e - 1) = (k + i) mod 2 ^ e.
@@ -261,8 +221,8 @@ Proof. unfold key. intros ->. reflexivity. Qed.
 
 (* ================================================================ the probe loop *)
 Lemma probe_iter T e k src :
-  0 <= e <= 52 ->
-  forall n i, 0 <= i -> i + Z.of_nat n <= 2 ^ 53 ->
+  0 <= e <= 60 ->
+  forall n i, 0 <= i -> i + Z.of_nat n <= 2 ^ 61 ->
   (exists x, i <= x < i + Z.of_nat n /\ key T ((k + x) mod 2 ^ e) = 0) ->
   exists d, i <= d < i + Z.of_nat n /\
     (forall x, i <= x < d -> key T ((k + x) mod 2 ^ e) <> 0 /\ key T ((k + x) mod 2 ^ e) <> src) /\
@@ -284,7 +244,7 @@ Proof.
   - destruct (s =? src) eqn:Es.
     + exists i. split; [lia|]. split; [intros; lia|]. right. split; [lia|].
       exists r. assert (s = src) as Hss by lia. rewrite Hss in Eg. split; [assumption|reflexivity].
-    + rewrite w64_id by (unfold in_u64; change (2 ^ 53) with 9007199254740992 in Hn; lia).
+    + rewrite w64_id by (unfold in_u64; change (2 ^ 61) with 2305843009213693952 in Hn; lia).
       assert (x <> i) by (intro; subst x; lia).
       destruct (IH (i + 1)) as [d [Hd [Hpre Hres]]]; [lia|lia|exists x; split; [lia|assumption]|].
       exists d. split; [lia|]. split.
@@ -297,7 +257,7 @@ Section Proofs.
 
   Record inv (m : refmap) : Prop := {
     inv_B : buckets m = 0 \/ bucket_ok (buckets m);
-    inv_cnt : 0 <= count m <= thr (buckets m);
+    inv_cnt : 0 <= count m <= buckets m /\ (buckets m <> 0 -> count m < buckets m);
     inv_rng : forall j, 0 <= j -> key (table m) j <> 0 -> j < buckets m;
     inv_occ : count m = cnt (table m) (buckets m);
     inv_reach : forall j, 0 <= j < buckets m -> key (table m) j <> 0 ->
@@ -313,7 +273,7 @@ Section Proofs.
   Lemma inv_pos m : inv m -> buckets m <> 0 -> bucket_ok (buckets m) /\ count m < buckets m.
   Proof.
     intros I Hb. destruct (inv_B m I) as [|Hok]; [lia|]. split; [assumption|].
-    pose proof (bucket_ok_range _ Hok). pose proof (thr_lt (buckets m)). pose proof (inv_cnt m I). lia.
+    apply (inv_cnt m I). assumption.
   Qed.
 
   Lemma holds_fun m k r r' : inv m -> holds m k r -> holds m k r' -> r = r'.
@@ -337,16 +297,16 @@ Section Proofs.
         exists r, tget (table m) ((hash src + d) mod buckets m) = (src, r) /\
         probe_loop hash m src = Some (PFound ((hash src + d) mod buckets m) r))).
   Proof.
-    intros I Hb. destruct (inv_pos m I Hb) as [[e [He HB]] Hc]. pose proof min_e_range as Hm.
+    intros I Hb. destruct (inv_pos m I Hb) as [[e [He HB]] Hc].
     assert (Hpos : 0 < buckets m) by (rewrite HB; apply pow2_pos; lia).
     destruct (cnt_empty_exists (table m) (buckets m)) as [j0 [Hj0 Hk0]]; [rewrite <- (inv_occ m I); lia|].
     unfold probe_loop. rewrite iter_pos_nat. rewrite HB.
-    assert (Hle : 2 ^ e <= 2 ^ 52) by (apply pow2_mono; lia).
+    assert (Hle : 2 ^ e <= 2 ^ 60) by (apply pow2_mono; lia).
     destruct (probe_iter (table m) e (hash src) src) with (n := Pos.to_nat (Z.to_pos (2 ^ e))) (i := 0)
       as [d [Hd [Hpre Hres]]].
     - lia.
     - lia.
-    - rewrite positive_nat_Z, Z2Pos.id by lia. change (2 ^ 53) with (2 ^ 52 * 2). lia.
+    - rewrite positive_nat_Z, Z2Pos.id by lia. change (2 ^ 61) with (2 ^ 60 * 2). lia.
     - exists ((j0 - hash src) mod 2 ^ e). rewrite positive_nat_Z, Z2Pos.id by lia.
       split; [pose proof (Z.mod_pos_bound (j0 - hash src) (2 ^ e)); lia|].
       rewrite slot_back by lia. assumption.
@@ -386,7 +346,7 @@ Section Proofs.
       pose proof (cnt_zero_empty (table m) (buckets m)) as Hz. rewrite <- (inv_occ m I) in Hz.
       apply key_of_tget in Hg. rewrite (Hz ltac:(lia) j Hj) in Hg. lia.
     - assert (Hb : buckets m <> 0).
-      { intro E. pose proof (inv_cnt m I) as H. rewrite E, thr_0 in H. lia. }
+      { intro E. pose proof (inv_cnt m I) as H. rewrite E in H. lia. }
       destruct (inv_pos m I Hb) as [Hok _]. pose proof (bucket_ok_range _ Hok) as Hr.
       destruct (probe_loop_spec m k I Hb) as [d [Hd [Hpre [[H0 Hl]|[H0 [r [Hg Hl]]]]]]]; rewrite Hl.
       + right. split; [|reflexivity]. intros r [Hk [j [Hj Hgj]]].
@@ -424,25 +384,25 @@ Section Proofs.
   Qed.
 
   Lemma insert_core_spec m k r :
-    inv m -> count m < thr (buckets m) -> k <> 0 ->
+    inv m -> buckets m <> 0 -> ((forall r0, ~ holds m k r0) -> count m + 1 < buckets m) -> k <> 0 ->
     exists m', insert_core hash m k r = Some m' /\ inv m' /\ buckets m' = buckets m /\
       (forall k' r', holds m' k' r' <-> (k' = k /\ r' = r) \/ (k' <> k /\ holds m k' r')) /\
       ((exists r0, holds m k r0) -> count m' = count m) /\
       ((forall r0, ~ holds m k r0) -> count m' = count m + 1).
   Proof.
-    intros I Hc Hk.
-    assert (Hb : buckets m <> 0).
-    { intro E. pose proof (inv_cnt m I) as H. rewrite E, thr_0 in *. lia. }
+    intros I Hb Hc Hk.
     destruct (inv_pos m I Hb) as [Hok HcB]. pose proof (bucket_ok_range _ Hok) as HBr.
     destruct (probe_loop_spec m k I Hb) as [d [Hd [Hpre Hres]]].
     pose proof (Z.mod_pos_bound (hash k + d) (buckets m) ltac:(lia)) as Hj.
     set (j := (hash k + d) mod buckets m) in *.
     unfold insert_core.
-    destruct Hres as [[H0 Hl]|[H0 [r0 [Hg Hl]]]]; rewrite Hl.
+    destruct Hres as [[H0 Hl]|[H0 [r0 [Hg Hl]]]]; rewrite Hl; cbn [apply_pres].
     - (* new key *)
       pose proof (stop_empty_absent m k d I ltac:(lia) Hk Hd Hpre H0) as Habs.
       assert (Hcnt : w64 (count m + 1) = count m + 1).
-      { apply w64_id. unfold in_u64. pose proof (inv_cnt m I). change (2 ^ 52) with 4503599627370496 in HBr. lia. }
+      { apply w64_id. unfold in_u64. pose proof (inv_cnt m I). change (2 ^ 60) with 1152921504606846976 in HBr. lia. }
+      assert (Hc1 : count m + 1 < buckets m).
+      { apply Hc. intros r0 [_ [x [Hx Hgx]]]. apply (Habs x Hx). apply (key_of_tget _ _ _ _ Hgx). }
       rewrite Hcnt.
       eexists. split; [reflexivity|]. split; [|split; [reflexivity|split; [|split]]].
       + constructor; cbn [count buckets table].
@@ -502,7 +462,7 @@ Section Proofs.
   Qed.
   (* ================================================================ rehash *)
   Definition ins_ok (ins : refmap -> Z -> Z -> option refmap) : Prop :=
-    forall m s r, bucket_ok (buckets m) -> count m < thr (buckets m) -> s <> 0 -> ins m s r = insert_core hash m s r.
+    forall m s r, ins m s r = insert_core hash m s r.
 
   Lemma cnt_leaf B : cnt TLeaf B = 0.
   Proof.
@@ -512,7 +472,7 @@ Section Proofs.
 
   Lemma inv_fresh b : bucket_ok b -> inv {| count := 0; buckets := b; table := TLeaf |}.
   Proof.
-    intros Hb. pose proof (bucket_ok_range _ Hb). pose proof (thr_lt b).
+    intros Hb. pose proof (bucket_ok_range _ Hb).
     constructor; cbn [count buckets table].
     - right. assumption.
     - lia.
@@ -527,13 +487,13 @@ Section Proofs.
     Hypothesis Io : inv mo.
     Hypothesis Hins : ins_ok ins.
     Hypothesis Hb : bucket_ok b.
-    Hypothesis Hco : count mo < thr b.
+    Hypothesis Hco : count mo < b.
 
     Let P (i : Z) (mi : refmap) : Prop :=
       inv mi /\ buckets mi = b /\ count mi = cnt (table mo) i /\
       forall k r, holds mi k r <-> (k <> 0 /\ exists j, 0 <= j < i /\ tget (table mo) j = (k, r)).
 
-    Lemma bold_range : 0 <= buckets mo <= 2 ^ 52.
+    Lemma bold_range : 0 <= buckets mo <= 2 ^ 60.
     Proof.
       destruct (inv_B mo Io) as [E|Hok]; [rewrite E; split; [lia|apply Z.lt_le_incl, pow2_pos; lia]|].
       pose proof (bucket_ok_range _ Hok). lia.
@@ -543,7 +503,7 @@ Section Proofs.
       0 <= i <= buckets mo -> Z.of_nat n = buckets mo + 1 - i -> P i mi ->
       exists m', iter_nat (rehash_step ins (table mo) (buckets mo)) n (i, mi) = inl (Some m') /\ P (buckets mo) m'.
     Proof.
-      pose proof bold_range as HBo. change (2 ^ 52) with 4503599627370496 in HBo.
+      pose proof bold_range as HBo. change (2 ^ 60) with 1152921504606846976 in HBo.
       induction n as [|n IH]; intros i mi Hi Hn HP; [lia|].
       cbn [iter_nat]. unfold rehash_step at 1.
       destruct (i <? buckets mo) eqn:Elt.
@@ -569,7 +529,8 @@ Section Proofs.
           assert (j = i); [|lia]. apply (inv_dist mo Io); try lia.
           - rewrite (key_of_tget _ _ _ _ Hg). assumption.
           - rewrite (key_of_tget _ _ _ _ Hg). congruence. }
-        destruct (insert_core_spec mi s r Ii) as [m2 (Hi2 & I2 & HB2 & Hh2 & _ & Hc2)]; [rewrite HBi; lia|assumption|].
+        pose proof (bucket_ok_range _ Hb) as Hbr.
+        destruct (insert_core_spec mi s r Ii) as [m2 (Hi2 & I2 & HB2 & Hh2 & _ & Hc2)]; [rewrite HBi; lia|intros _; rewrite HBi; lia|assumption|].
         rewrite Hi2. apply IH; [lia|lia|]. split; [assumption|]. split; [congruence|]. split.
         + rewrite (Hc2 Habs), Hci. rewrite cnt_succ by lia. unfold occ. rewrite Ek, E0. reflexivity.
         + intros k r'. rewrite Hh2. rewrite Hhi. split.
@@ -605,129 +566,26 @@ Section Proofs.
         + intros k r. rewrite Hh'. unfold holds. reflexivity.
     Qed.
   End Rehash.
-  (* ================================================================ resize *)
-  Lemma count_lt_grow_limit m : inv m -> 0 <= count m /\ 2 * count m < GROW_LIMIT.
+  (* ================================================================ bringing the table to an observed size *)
+  Lemma regrow_spec m nb :
+    inv m -> grow_ok m nb = true ->
+    exists m1, regrow hash m nb = Some m1 /\ inv m1 /\ buckets m1 = nb /\ count m1 = count m /\
+               (forall k r, holds m1 k r <-> holds m k r) /\ bucket_ok nb /\ count m < nb.
   Proof.
-    intros I. pose proof (inv_cnt m I) as Hc.
-    assert (thr (buckets m) <= thr (2 ^ 52)).
-    { destruct (inv_B m I) as [E|Hok]; [rewrite E|pose proof (bucket_ok_range _ Hok)]; apply thr_mono; [|lia].
-      split; [lia|apply Z.lt_le_incl, pow2_pos; lia]. }
-    assert (2 * thr (2 ^ 52) < GROW_LIMIT) by (vm_compute; reflexivity).
-    lia.
-  Qed.
-
-  Lemma resize_spec ins alloc m c :
-    inv m -> 0 <= c < GROW_LIMIT -> ins_ok ins ->
-    exists m' out, resize_with ins alloc m c = Some (m', out) /\
-      ((out = Done 0 /\ inv m' /\ (forall k r, holds m' k r <-> holds m k r) /\ count m' = count m /\
-        c < thr (buckets m') /\ count m < thr (buckets m')) \/
-       (out = AllocFailed (-1) /\ m' = m)).
-  Proof.
-    intros I Hc Hins. pose proof (count_lt_grow_limit m I) as Hcm. pose proof min_e_range as Hme.
-    unfold resize_with.
-    set (c1 := if c <? count m then count m else c).
-    assert (Hc1 : 0 <= c1 < GROW_LIMIT /\ c <= c1 /\ count m <= c1) by (unfold c1; destruct (c <? count m) eqn:E; lia).
-    destruct consts_ok as (Hmin & _ & _ & _ & Hmax).
-    destruct (grow_spec 64 MIN_E c1) as [e' [He' [Hg Hlt]]]; [lia|lia|lia|].
-    rewrite Hmin, Hg.
-    destruct (2 ^ e' =? buckets m) eqn:Eb.
-    - exists m, (Done 0). split; [reflexivity|]. left. split; [reflexivity|]. split; [assumption|].
-      split; [tauto|]. split; [reflexivity|]. assert (buckets m = 2 ^ e') by lia. replace (buckets m) with (2 ^ e'). lia.
-    - destruct (negb (2 ^ e' =? 2 ^ MIN_E) && (negb alloc || (RM_MAX_BUCKETS <? 2 ^ e'))) eqn:Ea.
-      + exists m, (AllocFailed (-1)). split; [reflexivity|]. right. split; reflexivity.
-      + assert (Hok : bucket_ok (2 ^ e')).
-        { destruct (2 ^ e' =? 2 ^ MIN_E) eqn:Em.
-          - replace (2 ^ e') with RM_MIN_BUCKETS by lia. apply bucket_ok_min.
-          - exists e'. split; [|reflexivity]. split; [lia|].
-            assert (2 ^ e' <= 2 ^ 52) by (rewrite <- Hmax; destruct alloc; cbn in Ea; lia).
-            apply (Z.pow_le_mono_r_iff 2); lia. }
-        destruct (rehash_spec m ins (2 ^ e') I Hins Hok ltac:(lia)) as [m' (Hr & I' & HB' & Hc' & Hh')].
-        rewrite Hr. exists m', (Done 0). split; [reflexivity|]. left.
-        split; [reflexivity|]. split; [assumption|]. split; [assumption|]. split; [assumption|]. rewrite HB'. lia.
-  Qed.
-
-  (* the insert called back by the rehash never resizes: nesting depth 1 is enough there *)
-  Lemma insert_d_ins_ok d alloc :
-    ins_ok (fun m s r => match insert_d hash (S d) alloc m s r with Some (m', _) => Some m' | None => None end).
-  Proof.
-    intros m s r Hok Hc Hs. cbn [insert_d].
-    replace (s =? 0) with false by lia.
-    pose proof (bucket_ok_range _ Hok) as Hr.
-    rewrite above_spec by (split; [lia|apply Z.le_trans with (2 ^ 52); [lia|apply pow2_mono; lia]]).
-    replace (thr (buckets m) <=? count m) with false by lia.
-    destruct (insert_core hash m s r); reflexivity.
-  Qed.
-
-  Definition ins1 (alloc : bool) : refmap -> Z -> Z -> option refmap :=
-    fun m s r => match insert_d hash 1 alloc m s r with Some (m', _) => Some m' | None => None end.
-
-  Lemma insert_unfold alloc m src ref :
-    insert hash alloc m src ref =
-      if src =? 0 then Some (m, Done ref) else
-      if above (count m) (buckets m) then
-        match resize_with (ins1 alloc) alloc m (w64 (count m * 2)) with
-        | None => None
-        | Some (m1, Done _) => match insert_core hash m1 src ref with Some m2 => Some (m2, Done ref) | None => None end
-        | Some (_, AllocFailed _) => Some (m, AllocFailed RM_NOT_FOUND)
-        end
-      else match insert_core hash m src ref with Some m2 => Some (m2, Done ref) | None => None end.
-  Proof. reflexivity. Qed.
-
-  Lemma insert_spec alloc m k r :
-    inv m ->
-    exists m' out, insert hash alloc m k r = Some (m', out) /\
-      (k = 0 -> m' = m /\ out = Done r) /\
-      (k <> 0 ->
-        (out = Done r /\ inv m' /\
-         (forall k' r', holds m' k' r' <-> (k' = k /\ r' = r) \/ (k' <> k /\ holds m k' r')) /\
-         ((exists r0, holds m k r0) -> count m' = count m) /\
-         ((forall r0, ~ holds m k r0) -> count m' = count m + 1)) \/
-        (out = AllocFailed RM_NOT_FOUND /\ m' = m)).
-  Proof.
-    intros I. rewrite insert_unfold.
-    destruct (k =? 0) eqn:Ek.
-    - exists m, (Done r). split; [reflexivity|]. split; [auto|lia].
-    - assert (Hk : k <> 0) by lia.
-      assert (HB : 0 <= buckets m <= 2 ^ 56).
-      { destruct (inv_B m I) as [E|Hok]; [rewrite E; split; [lia|apply Z.lt_le_incl, pow2_pos; lia]|].
-        pose proof (bucket_ok_range _ Hok). split; [lia|apply Z.le_trans with (2 ^ 52); [lia|apply pow2_mono; lia]]. }
-      rewrite above_spec by assumption.
-      destruct (thr (buckets m) <=? count m) eqn:Ea.
-      + pose proof (count_lt_grow_limit m I) as Hcm.
-        assert (Hu : w64 (count m * 2) = count m * 2).
-        { apply w64_id. unfold in_u64. assert (GROW_LIMIT < 18446744073709551616) by (vm_compute; reflexivity). lia. }
-        rewrite Hu.
-        destruct (resize_spec (ins1 alloc) alloc m (count m * 2) I ltac:(lia) (insert_d_ins_ok 0 alloc))
-          as [m1 [out [Hr [(-> & I1 & Hh1 & Hc1 & Hlt & _)|(-> & ->)]]]]; rewrite Hr.
-        * destruct (insert_core_spec m1 k r I1 ltac:(lia) Hk) as [m2 (Hi2 & I2 & _ & Hh2 & Hce & Hcn)].
-          rewrite Hi2. exists m2, (Done r). split; [reflexivity|]. split; [lia|]. intros _. left.
-          split; [reflexivity|]. split; [assumption|]. split; [|split].
-          -- intros k' r'. rewrite Hh2, Hh1. reflexivity.
-          -- intros [r0 Hr0]. rewrite <- Hc1. apply Hce. exists r0. apply Hh1. assumption.
-          -- intros Hn. rewrite <- Hc1. apply Hcn. intros r0 Hr0. apply (Hn r0). apply Hh1. assumption.
-        * exists m, (AllocFailed RM_NOT_FOUND). split; [reflexivity|]. split; [lia|]. intros _. right. auto.
-      + destruct (insert_core_spec m k r I ltac:(lia) Hk) as [m2 (Hi2 & I2 & _ & Hh2 & Hce & Hcn)].
-        rewrite Hi2. exists m2, (Done r). split; [reflexivity|]. split; [lia|]. intros _. left.
-        split; [reflexivity|]. split; [assumption|]. split; [assumption|]. split; assumption.
-  Qed.
-
-  Lemma user_resize_spec alloc m c :
-    inv m -> 0 <= c < GROW_LIMIT ->
-    exists m' out, resize hash alloc m c = Some (m', out) /\
-      ((out = Done 0 /\ inv m' /\ (forall k r, holds m' k r <-> holds m k r) /\ count m' = count m /\
-        c < thr (buckets m')) \/
-       (out = AllocFailed (-1) /\ m' = m)).
-  Proof.
-    intros I Hc. change (resize hash alloc m c) with (resize_with (ins1 alloc) alloc m c).
-    destruct (resize_spec (ins1 alloc) alloc m c I Hc (insert_d_ins_ok 0 alloc)) as [m' [out [Hr Hcases]]].
-    exists m', out. split; [assumption|]. destruct Hcases as [(H1 & H2 & H3 & H4 & H5 & _)|H]; [left|right]; auto.
+    intros I Hg. unfold grow_ok in Hg. apply andb_true_iff in Hg. destruct Hg as [Hp Hc].
+    pose proof (is_pow2_ok nb Hp) as Hok. assert (Hlt : count m < nb) by lia.
+    unfold regrow. destruct (nb =? buckets m) eqn:E.
+    - exists m. assert (Hn : nb = buckets m) by lia.
+      split; [reflexivity|]. split; [assumption|]. split; [auto|]. split; [reflexivity|]. split; [tauto|]. split; assumption.
+    - destruct (rehash_spec m (insert_core hash) nb I ltac:(intros m0 s0 r0; reflexivity) Hok Hlt) as [m1 (Hr & I1 & HB1 & Hc1 & Hh1)].
+      exists m1. split; [assumption|]. split; [assumption|]. split; [assumption|]. split; [assumption|]. split; [assumption|]. split; assumption.
   Qed.
 
   Lemma inv_init : inv rm_init.
   Proof.
     constructor; cbn [rm_init count buckets table].
     - left. reflexivity.
-    - rewrite thr_0. lia.
+    - lia.
     - intros j _ Hz. rewrite key_leaf in Hz. lia.
     - rewrite cnt_leaf. reflexivity.
     - intros j Hj. lia.
@@ -752,13 +610,25 @@ Section Proofs.
         * intros j1 j2 _ _ Hz. rewrite key_leaf in Hz. lia.
       + intros k r [Hk [j [_ Hg]]]. cbn [table] in Hg. rewrite tget_leaf in Hg. congruence.
   Qed.
+
   (* ================================================================ refinement of the abstract map *)
   Definition amap := Z -> option Z.
   Definition aempty : amap := fun _ => None.
   Definition aupd (A : amap) (k r : Z) : amap := fun x => if x =? k then Some r else A x.
   Definition alook (A : amap) (k : Z) : Z := match A k with Some r => r | None => RM_NOT_FOUND end.
+  Definition present (A : amap) (k : Z) : bool := match A k with Some _ => true | None => false end.
 
   Definition rep (m : refmap) (A : amap) : Prop := inv m /\ forall k r, holds m k r <-> A k = Some r.
+
+  (* THE SIDE CONDITION on an observed bucket count, in terms of the number of stored keys [c] and the abstract map:
+     a power of two (<= 2^60) that holds the stored keys, and after the operation at least one slot stays empty *)
+  Definition policy_ok (c : Z) (A : amap) (o : op) : bool :=
+    match o with
+    | OInsert s r (OBuckets nb) =>
+      (s =? 0) || (is_pow2 nb && (c <? nb) && (present A s || (c + 1 <? nb)))
+    | OResize (OBuckets nb) => is_pow2 nb && (c <? nb)
+    | _ => true
+    end.
 
   Definition abs_step (A : amap) (o : op) (out : outcome) : amap :=
     match o, out with
@@ -771,15 +641,13 @@ Section Proofs.
     match o, out with
     | OFind k, Done r => r = alook A k
     | OInsert s r _, Done r' => r' = r
-    | OInsert s r _, AllocFailed r' => s <> 0 /\ r' = RM_NOT_FOUND
-    | OResize _ _, Done r => r = 0
-    | OResize _ _, AllocFailed r => r = -1
+    | OInsert s r g, AllocFailed r' => s <> 0 /\ g = ORefused /\ r' = RM_NOT_FOUND
+    | OResize _, Done r => r = 0
+    | OResize g, AllocFailed r => g = ORefused /\ r = -1
     | OReset, Done r | OClear, Done r => r = 0
+    | OInsert _ _ (OBuckets _), BadPolicy | OResize (OBuckets _), BadPolicy => True
     | _, _ => False
     end.
-
-  Definition wf_op (o : op) : Prop :=
-    match o with OResize c _ => 0 <= c < GROW_LIMIT | _ => True end.
 
   Fixpoint trace_ok (A : amap) (ops : list op) (outs : list outcome) : Prop :=
     match ops, outs with
@@ -807,49 +675,117 @@ Section Proofs.
     intros [_ [j [Hj _]]]. cbn in Hj. lia.
   Qed.
 
-  Lemma step_refines m A o :
-    rep m A -> wf_op o ->
-    exists m' out, run_op hash m o = Some (m', out) /\ out_ok A o out /\ rep m' (abs_step A o out) /\
-                   (forall r, out = AllocFailed r -> m' = m).
+  Lemma insert_spec m A k r nb :
+    rep m A -> k <> 0 ->
+    exists m' out, insert hash m k r (OBuckets nb) = Some (m', out) /\
+      ((policy_ok (count m) A (OInsert k r (OBuckets nb)) = true /\ out = Done r /\ rep m' (aupd A k r) /\ buckets m' = nb /\
+        count m' = (if present A k then count m else count m + 1)) \/
+       (policy_ok (count m) A (OInsert k r (OBuckets nb)) = false /\ out = BadPolicy /\ m' = m)).
   Proof.
-    intros [I H] Hwf. destruct o as [s r a|s|c a| |]; cbn [run_op].
-    - destruct (insert_spec a m s r I) as [m' [out [Hi [Hz Hnz]]]]. rewrite Hi. exists m', out.
-      split; [reflexivity|]. destruct (Z.eq_dec s 0) as [->|Hs].
-      + destruct (Hz eq_refl) as [-> ->]. cbn. split; [reflexivity|]. split; [split; assumption|discriminate].
-      + destruct (Hnz Hs) as [(-> & I' & Hh' & _)|(-> & ->)].
-        * cbn [out_ok abs_step]. split; [reflexivity|]. replace (s =? 0) with false by lia. split; [|discriminate].
-          split; [assumption|]. intros k' r'. rewrite Hh'. unfold aupd. rewrite H.
-          destruct (k' =? s) eqn:E.
-          -- assert (k' = s) by lia. subst k'. split; [intros [[_ ->]|[N _]]; [reflexivity|lia]|].
-             intros [= ->]. left. auto.
-          -- split; [intros [[-> _]|[_ Hk]]; [lia|assumption]|]. intros Hk. right. split; [lia|assumption].
-        * cbn [out_ok abs_step]. split; [auto|]. split; [split; assumption|reflexivity].
-    - rewrite (rep_find m A s (conj I H)). exists m, (Done (alook A s)). split; [reflexivity|].
-      split; [reflexivity|]. split; [split; assumption|discriminate].
-    - cbn in Hwf. destruct (user_resize_spec a m c I Hwf) as [m' [out [Hr [(-> & I' & Hh' & _)|(-> & ->)]]]]; rewrite Hr.
-      + exists m', (Done 0). split; [reflexivity|]. split; [reflexivity|]. split; [|discriminate].
-        split; [assumption|]. intros k r. rewrite Hh'. apply H.
-      + exists m, (AllocFailed (-1)). split; [reflexivity|]. split; [reflexivity|]. split; [split; assumption|reflexivity].
-    - exists (reset m), (Done 0). split; [reflexivity|]. split; [reflexivity|]. split; [|discriminate].
+    intros [I H] Hk. unfold insert, policy_ok. replace (k =? 0) with false by lia. cbn [orb].
+    destruct (grow_ok m nb) eqn:Eg; cbn [negb].
+    2:{ exists m, BadPolicy. split; [reflexivity|]. right. split; [|auto].
+        unfold grow_ok in Eg. destruct (is_pow2 nb); [|reflexivity]. destruct (count m <? nb); [discriminate|reflexivity]. }
+    destruct (regrow_spec m nb I Eg) as [m1 (Hr & I1 & HB1 & Hc1 & Hh1 & Hok & Hlt)]. rewrite Hr.
+    assert (Hgp : is_pow2 nb && (count m <? nb) = true) by exact Eg. rewrite Hgp. cbn [andb].
+    pose proof (bucket_ok_range _ Hok) as Hbr.
+    assert (Hb1 : buckets m1 <> 0) by lia.
+    destruct (probe_loop_spec m1 k I1 Hb1) as [d [Hd [Hpre Hres]]].
+    destruct Hres as [[H0 Hl]|[H0 [r0 [Hgt Hl]]]]; rewrite Hl; cbn [is_new andb].
+    - (* the key is new *)
+      assert (Habs : forall r1, ~ holds m1 k r1).
+      { intros r1 [_ [x [Hx Hgx]]].
+        apply (stop_empty_absent m1 k d I1 ltac:(lia) Hk Hd Hpre H0 x Hx). apply (key_of_tget _ _ _ _ Hgx). }
+      assert (Hnp : present A k = false).
+      { unfold present. destruct (A k) as [r1|] eqn:E; [|reflexivity]. exfalso. apply (Habs r1). apply Hh1. apply H. assumption. }
+      rewrite Hnp, HB1, Hc1. cbn [orb].
+      destruct (count m + 1 <? nb) eqn:Ec; cbn [negb].
+      + destruct (insert_core_spec m1 k r I1 Hb1 ltac:(intros _; lia) Hk) as [m2 (Hi2 & I2 & HB2 & Hh2 & _ & Hcn)].
+        unfold insert_core in Hi2. rewrite Hl in Hi2. apply Some_inj in Hi2. rewrite HB1 in Hi2. rewrite Hi2.
+        exists m2, (Done r). split; [reflexivity|]. left. split; [reflexivity|]. split; [reflexivity|]. split; [|split].
+        * split; [assumption|]. intros k' r'. rewrite Hh2, Hh1, H. unfold aupd. destruct (k' =? k) eqn:E.
+          -- assert (k' = k) by lia. subst k'. split; [intros [[_ ->]|[N _]]; [reflexivity|lia]|]. intros [= ->]. left. auto.
+          -- split; [intros [[-> _]|[_ Hx]]; [lia|assumption]|]. intros Hx. right. split; [lia|assumption].
+        * congruence.
+        * rewrite (Hcn Habs). lia.
+      + exists m, BadPolicy. split; [reflexivity|]. right. auto.
+    - (* the key is stored: the reference is replaced, whatever the size *)
+      assert (Hho : holds m1 k r0).
+      { split; [assumption|]. exists ((hash k + d) mod buckets m1). split; [apply Z.mod_pos_bound; lia|assumption]. }
+      assert (Hp : present A k = true).
+      { unfold present. apply Hh1 in Hho. apply H in Hho. rewrite Hho. reflexivity. }
+      rewrite Hp. cbn [orb].
+      destruct (insert_core_spec m1 k r I1 Hb1 ltac:(intros Hn; exfalso; apply (Hn r0 Hho)) Hk) as [m2 (Hi2 & I2 & HB2 & Hh2 & Hce & _)].
+      unfold insert_core in Hi2. rewrite Hl in Hi2. apply Some_inj in Hi2. rewrite Hi2.
+      exists m2, (Done r). split; [reflexivity|]. left. split; [reflexivity|]. split; [reflexivity|]. split; [|split].
+      + split; [assumption|]. intros k' r'. rewrite Hh2, Hh1, H. unfold aupd. destruct (k' =? k) eqn:E.
+        * assert (k' = k) by lia. subst k'. split; [intros [[_ ->]|[N _]]; [reflexivity|lia]|]. intros [= ->]. left. auto.
+        * split; [intros [[-> _]|[_ Hx]]; [lia|assumption]|]. intros Hx. right. split; [lia|assumption].
+      + congruence.
+      + rewrite Hce by (exists r0; assumption). assumption.
+  Qed.
+
+  Lemma resize_spec m A nb :
+    rep m A ->
+    exists m' out, resize hash m (OBuckets nb) = Some (m', out) /\
+      ((policy_ok (count m) A (OResize (OBuckets nb)) = true /\ out = Done 0 /\ rep m' A /\ buckets m' = nb /\ count m' = count m) \/
+       (policy_ok (count m) A (OResize (OBuckets nb)) = false /\ out = BadPolicy /\ m' = m)).
+  Proof.
+    intros [I H]. unfold resize, policy_ok. change (is_pow2 nb && (count m <? nb)) with (grow_ok m nb).
+    destruct (grow_ok m nb) eqn:Eg; cbn [negb].
+    - destruct (regrow_spec m nb I Eg) as [m1 (Hr & I1 & HB1 & Hc1 & Hh1 & _)]. rewrite Hr.
+      exists m1, (Done 0). split; [reflexivity|]. left. split; [reflexivity|]. split; [reflexivity|]. split; [|auto].
+      split; [assumption|]. intros k r. rewrite Hh1. apply H.
+    - exists m, BadPolicy. split; [reflexivity|]. right. auto.
+  Qed.
+
+  Lemma step_refines m A o :
+    rep m A ->
+    exists m' out, run_op hash m o = Some (m', out) /\ out_ok A o out /\ rep m' (abs_step A o out) /\
+                   (out = BadPolicy <-> policy_ok (count m) A o = false) /\
+                   (forall r, out = AllocFailed r \/ out = BadPolicy -> m' = m).
+  Proof.
+    intros HR. pose proof HR as [I H]. destruct o as [s r g|s|g| |]; cbn [run_op].
+    - destruct (Z.eq_dec s 0) as [->|Hs].
+      + exists m, (Done r). split; [reflexivity|]. destruct g; cbn; (split; [reflexivity|]); (split; [assumption|]);
+          (split; [split; discriminate|]); intros r0 [E|E]; discriminate.
+      + destruct g as [|nb].
+        * exists m, (AllocFailed RM_NOT_FOUND). unfold insert. replace (s =? 0) with false by lia.
+          split; [reflexivity|]. cbn. split; [auto|]. split; [assumption|]. split; [split; discriminate|auto].
+        * destruct (insert_spec m A s r nb HR Hs) as [m' [out [Hi [(Hp & -> & HR' & _)|(Hp & -> & ->)]]]]; rewrite Hi.
+          -- exists m', (Done r). split; [reflexivity|]. cbn [out_ok abs_step]. split; [reflexivity|].
+             replace (s =? 0) with false by lia. split; [assumption|]. rewrite Hp. split; [split; discriminate|].
+             intros r0 [E|E]; discriminate.
+          -- exists m, BadPolicy. split; [reflexivity|]. cbn [out_ok abs_step]. split; [constructor|]. split; [assumption|].
+             rewrite Hp. split; [tauto|auto].
+    - rewrite (rep_find m A s HR). exists m, (Done (alook A s)). split; [reflexivity|].
+      split; [reflexivity|]. split; [assumption|]. split; [split; discriminate|]. intros r0 [E|E]; discriminate.
+    - destruct g as [|nb].
+      + exists m, (AllocFailed (-1)). split; [reflexivity|]. cbn. split; [auto|]. split; [assumption|]. split; [split; discriminate|auto].
+      + destruct (resize_spec m A nb HR) as [m' [out [Hr [(Hp & -> & HR' & _)|(Hp & -> & ->)]]]]; rewrite Hr.
+        * exists m', (Done 0). split; [reflexivity|]. split; [reflexivity|]. split; [assumption|]. rewrite Hp.
+          split; [split; discriminate|]. intros r0 [E|E]; discriminate.
+        * exists m, BadPolicy. split; [reflexivity|]. split; [constructor|]. split; [assumption|]. rewrite Hp. split; [tauto|auto].
+    - exists (reset m), (Done 0). split; [reflexivity|]. split; [reflexivity|]. split; [|split; [split; discriminate|intros r0 [E|E]; discriminate]].
       destruct (inv_reset m I) as [I' Hn]. split; [assumption|]. intros k r. unfold abs_step, aempty.
       split; [intro Hh; exfalso; apply (Hn k r Hh)|discriminate].
-    - exists rm_init, (Done 0). split; [reflexivity|]. split; [reflexivity|]. split; [apply rep_init|discriminate].
+    - exists rm_init, (Done 0). split; [reflexivity|]. split; [reflexivity|]. split; [apply rep_init|].
+      split; [split; discriminate|intros r0 [E|E]; discriminate].
   Qed.
 
   Lemma run_refines ops : forall m A,
-    rep m A -> Forall wf_op ops ->
+    rep m A ->
     exists m' outs, run hash m ops = Some (m', outs) /\ trace_ok A ops outs /\ rep m' (abs_run A ops outs).
   Proof.
-    induction ops as [|o ops IH]; intros m A HR Hwf.
+    induction ops as [|o ops IH]; intros m A HR.
     - exists m, []. cbn. auto.
-    - inversion Hwf as [|? ? Hwo Hwt]; subst.
-      destruct (step_refines m A o HR Hwo) as [m1 [out [Hs [Hok [HR1 _]]]]].
-      destruct (IH m1 _ HR1 Hwt) as [m2 [outs [Hr [Ht HR2]]]].
+    - destruct (step_refines m A o HR) as [m1 [out [Hs [Hok [HR1 _]]]]].
+      destruct (IH m1 _ HR1) as [m2 [outs [Hr [Ht HR2]]]].
       exists m2, (out :: outs). cbn [run]. rewrite Hs, Hr. cbn [trace_ok abs_run]. auto.
   Qed.
 
   (* The property's wording: the last reference stored under k since the last reset / clear.
-     [h] is the history, most recent event first. *)
+     [h] is the history, most recent event first; only successful inserts count. *)
   Fixpoint last_stored (h : list (op * outcome)) (k : Z) : option Z :=
     match h with
     | [] => None
@@ -890,61 +826,71 @@ Section Proofs.
     cbn [abs_run combine rev]. rewrite last_stored_from_snoc. apply IH. cbn in Hl. lia.
   Qed.
 
-  Lemma trace_ok_length A ops : forall A' outs, A' = A -> trace_ok A' ops outs -> length ops = length outs.
+  Lemma trace_ok_length ops : forall A outs, trace_ok A ops outs -> length ops = length outs.
   Proof.
-    clear. revert A. induction ops as [|o ops IH]; intros A A' outs _; destruct outs; cbn; try tauto.
-    intros [_ H]. f_equal. eapply IH; [reflexivity|exact H].
+    induction ops as [|o ops IH]; intros A outs; destruct outs; cbn; try tauto.
+    intros [_ H]. f_equal. eapply IH. exact H.
   Qed.
 
-  (* every operation sequence from the initial map *)
+  (* every operation sequence with every growth oracle, from the initial map *)
   Theorem refmap_refines ops :
-    Forall wf_op ops ->
     exists m outs, run hash rm_init ops = Some (m, outs) /\
       trace_ok aempty ops outs /\
       inv m /\
       forall k, find hash m k =
                 Some (match last_stored (rev (combine ops outs)) k with Some r => r | None => RM_NOT_FOUND end).
   Proof.
-    intros Hwf. destruct (run_refines ops rm_init aempty rep_init Hwf) as [m [outs [Hr [Ht HR]]]].
+    destruct (run_refines ops rm_init aempty rep_init) as [m [outs [Hr [Ht HR]]]].
     exists m, outs. split; [assumption|]. split; [assumption|]. split; [apply HR|].
     intros k. rewrite (rep_find m _ k HR). unfold alook.
-    rewrite abs_run_last_stored by (eapply trace_ok_length; [reflexivity|exact Ht]).
+    rewrite abs_run_last_stored by (eapply trace_ok_length; exact Ht).
     rewrite last_stored_from_empty. reflexivity.
   Qed.
 
-  (* a refused allocation leaves the map as it was; insert then answers not_found, resize -1 *)
-  Lemma alloc_failure_unchanged m A o m' x :
-    rep m A -> wf_op o -> run_op hash m o = Some (m', AllocFailed x) ->
-    m' = m /\ match o with OInsert _ _ _ => x = RM_NOT_FOUND | OResize _ _ => x = -1 | _ => False end.
+  (* a refused allocation and a rejected growth policy leave the map as it was *)
+  Lemma failure_unchanged m A o m' out :
+    rep m A -> run_op hash m o = Some (m', out) -> (exists x, out = AllocFailed x) \/ out = BadPolicy ->
+    m' = m /\ match o, out with
+              | OInsert _ _ ORefused, AllocFailed x => x = RM_NOT_FOUND
+              | OResize ORefused, AllocFailed x => x = -1
+              | OInsert _ _ (OBuckets _), BadPolicy | OResize (OBuckets _), BadPolicy => policy_ok (count m) A o = false
+              | _, _ => False
+              end.
   Proof.
-    intros HR Hwf Hrun. destruct (step_refines m A o HR Hwf) as [m1 [out [Hs [Hok [_ Hun]]]]].
-    rewrite Hrun in Hs. injection Hs as <- <-. split; [apply (Hun x); reflexivity|].
-    destruct o; cbn in Hok; tauto.
+    intros HR Hrun Hf. destruct (step_refines m A o HR) as [m1 [out1 [Hs [Hok [_ [Hbad Hun]]]]]].
+    rewrite Hrun in Hs. apply Some_inj in Hs. injection Hs as <- <-. split.
+    - destruct Hf as [[x ->]| ->]; [apply (Hun x)|apply (Hun 0)]; auto.
+    - destruct Hf as [[x ->]| ->].
+      + destruct o as [s r g|s|g| |]; cbn in Hok; try tauto; destruct g; cbn in Hok; cbn; intuition congruence.
+      + destruct o as [s r g|s|g| |]; cbn in Hok; try tauto; destruct g; cbn in Hok; try tauto; apply Hbad; reflexivity.
   Qed.
 
-  (* insert of a present key replaces the reference and keeps the count; a new key adds one *)
-  Lemma insert_count m A s r a m' x :
-    rep m A -> s <> 0 -> insert hash a m s r = Some (m', Done x) ->
-    x = r /\ find hash m' s = Some r /\
-    count m' = (match A s with Some _ => count m | None => count m + 1 end).
+  (* insert of a present key replaces the reference and keeps the count; a new key adds one; the table has the observed size *)
+  Lemma insert_count m A s r nb m' x :
+    rep m A -> s <> 0 -> insert hash m s r (OBuckets nb) = Some (m', Done x) ->
+    x = r /\ find hash m' s = Some r /\ buckets m' = nb /\
+    count m' = (if present A s then count m else count m + 1).
   Proof.
-    intros [I H] Hs Hi. destruct (insert_spec a m s r I) as [m1 [out [Hi' [_ Hnz]]]].
-    rewrite Hi in Hi'. injection Hi' as <- <-.
-    destruct (Hnz Hs) as [(E & I' & Hh' & Hce & Hcn)|(E & _)]; [|discriminate].
-    injection E as ->. split; [reflexivity|]. split.
-    - destruct (find_spec m' s I') as [[r1 [Hh Hf]]|[Hn Hf]].
-      + rewrite Hf. f_equal. apply (holds_fun m' s r1 r I' Hh). apply Hh'. left. auto.
-      + exfalso. apply (Hn r). apply Hh'. left. auto.
-    - destruct (A s) as [r0|] eqn:EA.
-      + apply Hce. exists r0. apply H. assumption.
-      + apply Hcn. intros r0 Hr0. apply H in Hr0. congruence.
+    intros HR Hs Hi. destruct (insert_spec m A s r nb HR Hs) as [m1 [out [Hi' [(_ & E & HR' & HB & Hc)|(_ & E & _)]]]];
+      rewrite Hi in Hi'; apply Some_inj in Hi'; injection Hi' as <- <-; [|discriminate].
+    injection E as ->. split; [reflexivity|]. split; [|split; assumption].
+    rewrite (rep_find m' _ s HR'). unfold alook, aupd. rewrite Z.eqb_refl. reflexivity.
   Qed.
 
   (* the null key: insert hands the reference back and stores nothing, find does not find it *)
-  Lemma null_key m A r a :
-    rep m A -> insert hash a m 0 r = Some (m, Done r) /\ find hash m 0 = Some RM_NOT_FOUND.
+  Lemma null_key m A r g :
+    rep m A -> insert hash m 0 r g = Some (m, Done r) /\ find hash m 0 = Some RM_NOT_FOUND.
   Proof.
     intros HR. split; [reflexivity|]. rewrite (rep_find m A 0 HR). unfold alook.
     destruct (A 0) as [r0|] eqn:E; [|reflexivity]. apply HR in E. destruct E as [E _]. congruence.
   Qed.
+
+  (* a policy that satisfies the side condition is never rejected *)
+  Lemma policy_ok_accepted m A o m' out :
+    rep m A -> policy_ok (count m) A o = true -> run_op hash m o = Some (m', out) -> out <> BadPolicy.
+  Proof.
+    intros HR Hp Hrun. destruct (step_refines m A o HR) as [m1 [out1 [Hs [_ [_ [Hbad _]]]]]].
+    rewrite Hrun in Hs. apply Some_inj in Hs. injection Hs as <- <-. intro E. apply Hbad in E. congruence.
+  Qed.
 End Proofs.
+
